@@ -8,6 +8,7 @@ import (
 	"image/color"
 	"image/draw"
 	"runtime"
+	"strings"
 	"testing"
 
 	"github.com/mandykoh/prism/linear"
@@ -29,6 +30,27 @@ type Case struct {
 	// Canvas: source and destination are two disjoint sub-images of ONE parent image (Src.Parent, of type
 	// Src.Type): tile-to-tile work on a shared canvas.  Src.Rect and Dst.Rect lie inside Src.Parent.
 	Canvas bool `json:"canvas,omitempty"`
+	// After > 0: the case directly follows image calls outside the property's domain (parallelism 0 or negative, on a
+	// small image; number After-1 of a fixed list), whose effects - a panic included - are ignored
+	After int `json:"after,omitempty"`
+}
+
+func outside(i int) {
+	src := image.NewRGBA64(image.Rect(0, 0, 3, 2))
+	for k := range src.Pix {
+		src.Pix[k] = 0xFF
+	}
+	dst := image.NewRGBA64(image.Rect(0, 0, 3, 2))
+	s := &sp.Spaces[i%len(sp.Spaces)]
+	par := []int{0, -1, -100, 0}[i%4]
+	ev.Guard(func() {
+		if i%2 == 0 {
+			s.LineariseImage(dst, src, par)
+		} else {
+			s.EncodeImage(dst, src, par)
+		}
+	})
+	ev.Guard(func() { linear.TransformImageColor(dst, src, par, custom) })
 }
 
 func custom(c color.Color) color.RGBA64 {
@@ -132,6 +154,9 @@ func checkCanvas(c Case) (kind, what string, classes []string) {
 
 func check(c Case) (kind, what string, classes []string) {
 	ev.Journal("transform", c)
+	if c.After > 0 {
+		outside(c.After - 1)
+	}
 	if c.Canvas {
 		return checkCanvas(c)
 	}
@@ -405,7 +430,7 @@ func TestC10(t *testing.T) {
 		fmt.Println("REPLAY case passed")
 		return
 	}
-	ev.Rule("fresh-process probes: the first transform of a process for 5 type pairs x parallelism {1,2,3,6,7,16,300} (each once as the first action of a process, generated orders, environment presets) and a soak of 140000 seven-pixel RGBA64 transforms in which rare colours recur exactly 255..257 and 65535..65537 calls later under another transform (first among very few colours, then among all-new ones), checked against the per-colour function (as a process's first action, and again at the end of the run); rapid: source of every standard image type (incl. opaque wrapper, sub-images, negative origins, empty/1xN/Nx1, a quarter with 10..40 rows), destination of every standard draw.Image type (RGBA64, RGBA, NRGBA, NRGBA64, Gray, Gray16, Alpha, Alpha16, CMYK, Paletted) or an opaque wrapper with its own origin, size = source + (0..3, 0..3) (a fifth with exactly the source's bounds, half of those of the source's type), optionally a sub-image of a sentinel-filled parent; parallelism in {1,2,3,7,16,rows+5}; transform in {Linearise,Encode} x 4 spaces + TransformImageColor with an injective channel-rotating function and with a function that looks at the pixel's own colour type first; in-place for the draw.Image types; an eighth of the cases use two disjoint sub-images of one canvas as source and destination. Also a fixed cross product of source types x destination types x parallelism x transforms on awkward geometry, and banners (1-3 rows of 129..20000 pixels, widths around powers of two, sub-image destinations, in-place; a tenth of the rapid images and a sweep over every type pair). Oracle: Set()-based model on a clone, whole parent buffers compared byte for byte. non-trivial = distinct case with differing origins, a sub-image, parallelism>1 with >=2 rows, a concrete fast path, or in-place")
+	ev.Rule("fresh-process probes: the first transform of a process for 5 type pairs x parallelism {1,2,3,6,7,16,300} (each once as the first action of a process, generated orders, environment presets) and a soak of 140000 seven-pixel RGBA64 transforms in which rare colours recur exactly 255..257 and 65535..65537 calls later under another transform (first among very few colours, then among all-new ones), checked against the per-colour function (as a process's first action, and again at the end of the run); rapid: source of every standard image type (incl. opaque wrapper, sub-images, negative origins, empty/1xN/Nx1, a quarter with 10..40 rows), destination of every standard draw.Image type (RGBA64, RGBA, NRGBA, NRGBA64, Gray, Gray16, Alpha, Alpha16, CMYK, Paletted) or an opaque wrapper with its own origin, size = source + (0..3, 0..3) (a fifth with exactly the source's bounds, half of those of the source's type), optionally a sub-image of a sentinel-filled parent; parallelism in {1,2,3,7,16,rows+5}; transform in {Linearise,Encode} x 4 spaces + TransformImageColor with an injective channel-rotating function and with a function that looks at the pixel's own colour type first; in-place for the draw.Image types; an eighth of the cases use two disjoint sub-images of one canvas as source and destination; a tenth directly follow an image call with parallelism 0 or negative, whose effects are ignored. Also a fixed cross product of source types x destination types x parallelism x transforms on awkward geometry, and banners (1-3 rows of 129..20000 pixels, widths around powers of two, sub-image destinations, in-place; a tenth of the rapid images and a sweep over every type pair). Oracle: Set()-based model on a clone, whole parent buffers compared byte for byte. non-trivial = distinct case with differing origins, a sub-image, parallelism>1 with >=2 rows, a concrete fast path, or in-place")
 	ev.Assume("the per-colour functions themselves are checked by C01/C02/C14; destination at least as large as the source (the documented precondition)")
 	ev.ProbeOrders(ev.Pick(1, 10))
 	// fixed cross product
@@ -467,6 +492,30 @@ func TestC10(t *testing.T) {
 			}
 		}
 		ev.Class("big-images", int64(nb))
+		// every space's two image functions on a fully opaque picture of a little more than 2^18 pixels, for the two
+		// commonest type pairs: size- and opacity-keyed shortcuts have to show themselves here
+		no := 0
+		for ti, tr := range Transforms {
+			if strings.HasPrefix(tr, "custom") {
+				continue
+			}
+			for pi, tp := range [][2]string{{"RGBA64", "RGBA64"}, {"NRGBA", "NRGBA64"}} {
+				h := 257 + ti
+				w := (1<<18)/h + 2
+				s := img.Spec{Type: tp[0], Rect: [4]int{0, 0, w, h}, Parent: [4]int{0, 0, w, h}, Fill: "opaque", Seed: uint64(ti*2+pi) + ev.Seed()}
+				d := img.Spec{Type: tp[1], Rect: [4]int{0, 0, w, h}, Parent: [4]int{0, 0, w, h}, Fill: "zero", Seed: 1}
+				c := Case{Src: s, Dst: d, Par: []int{1, 4, 16}[(ti+pi)%3], Transform: tr}
+				ev.Eval(1)
+				no++
+				k, wh, _ := check(c)
+				ev.NT(ev.Hash("opaque-big", c))
+				if k != "" {
+					ev.Violation("transform", k, wh, c)
+					break
+				}
+			}
+		}
+		ev.Class("big-opaque-images", int64(no))
 	}
 	// (height, parallelism) sweep on narrow images for each of the four loops of TransformImageColor, plus orbit
 	// content in place
@@ -537,6 +586,9 @@ func TestC10(t *testing.T) {
 			c.Dst.Rect = b
 		}
 		rows := c.Src.Rect[3] - c.Src.Rect[1]
+		if rapid.IntRange(0, 9).Draw(rt, "afteroutside") == 0 {
+			c.After = rapid.IntRange(1, 16).Draw(rt, "outside")
+		}
 		c.Par = rapid.SampledFrom(parChoices(rows)).Draw(rt, "parallelism")
 		c.Transform = rapid.SampledFrom(Transforms).Draw(rt, "transform")
 		ev.Eval(1)
